@@ -16,7 +16,15 @@ Families (the first is the original lattice; the others were added in the streng
               quantized_tanh, quantized_relu(use_sigmoid=1)) x mode at construction x mode at call
   reassign    construct with a decoy configuration, assign the attributes afterwards, then call
   history     ONE object of every class through a sequence of calls / reporters / attribute
-              assignments / _set_trainable_parameter() / being handed to layers (`fixedq_hist`)"""
+              assignments / _set_trainable_parameter() / being handed to layers (`fixedq_hist`)
+  stoch-phase every class with `use_stochastic_rounding` set (flag as bool / int / np.bool_ / np.int32,
+              given to the constructor or assigned afterwards) x the process-level learning phase: the
+              judged call runs in the INFERENCE phase reached in every way (never touched, set to 0,
+              scope(0), after a training-phase call, after leaving scope(1), object constructed in the
+              training phase, through QActivation with / without training=False, inside a tf.function),
+              plus the flag OFF in the training phase; each call is made twice (same result required)
+  stoch-train the training-phase calls of the above (random draws: no model value; judged by the
+              "codes only" clauses of C01, which hold for every draw)"""
 from fractions import Fraction as F
 import itertools
 
@@ -98,6 +106,8 @@ class Rec:
     self.range_flat = False     # per-channel: range() returned ONE list for all channels
     self.range_unreachable = None
     self.family = "base"
+    self.ys_again = None        # stoch-phase: outputs of a second, identical call
+    self.train = False          # stoch-train: a training-phase call (no model value)
 
   # flags that identify a site for known-finding matching
   def flags(self):
@@ -116,6 +126,8 @@ class Rec:
         out["qclip"] = bool(c.get("qclip", 1))
     if c.get("route", "direct") != "direct":
       out["route"] = c["route"]
+    if "proute" in c:
+      out["stoch"], out["phase"], out["proute"] = bool(c.get("stoch")), int(c.get("phase", 0)), c["proute"]
     return out
 
 
@@ -299,6 +311,69 @@ def configs_extra(tier, rng):
   return out
 
 
+# "train-then-infer" first: the very first flagged call of the process is a TRAINING-phase call (a phase memoised
+# at first use, per object or per module, then shows at every later inference call)
+PHASE_ROUTES = ("train-then-infer", "asis", "set0", "scope0", "scope1-exit", "ctor-train", "assign", "layer",
+                "layer-training-false", "tf-function", "noflag-train")
+FLAG_FORMS = ("bool", "int", "npbool", "i32")
+
+
+def configs_stoch(tier, rng):
+  """every fixed-point class with `use_stochastic_rounding` x the ways the inference phase is reached
+  (strengthening round 3, seed C02-7); a stream of its own"""
+  quick = tier == "quick"
+  pool = {}
+
+  def add(cell, kind, cfg):
+    pool.setdefault(cell, []).append((kind, cfg))
+  for b in range(1, 7):
+    for i in (-1, 0, 1, 2, 3):
+      for kn, sym in itertools.product((0, 1), (0, 1)):
+        if b - kn < 0:
+          continue
+        for a in (None, 1.0, 0.5, 2.0):
+          add("qbits", "qbits", dict(bits=b, integer=i, symmetric=sym, keep_negative=kn, alpha=a))
+          add("qlinear", "qlinear", dict(bits=b, integer=i, symmetric=sym, keep_negative=kn, alpha=a))
+      for sl in (None, 1, 2):
+        nsb = b - (0 if sl is None else 1)
+        if sl is not None and (b < 2 or sl > nsb):
+          continue
+        if i < 0:
+          continue      # quantized_relu computes K.pow(2, integer) on python ints: InvalidArgumentError for integer < 0
+        add("qrelu-plain" if sl is None else "qrelu-leaky", "qrelu", dict(bits=b, integer=i, slope_log=sl))
+        step = 2.0 ** (i - nsb)
+        for bname, ub in (("grid-below", 2 ** (nsb - 1) * step), ("grid-above", 2 ** nsb * step)):
+          add("qrelu-upper", "qrelu", dict(bits=b, integer=i, slope_log=sl, upper=ub, qclip=0, bound=bname))
+        add("qrelusig", "qrelusig", dict(bits=b, integer=i, slope_log=sl))
+    for sym in (0, 1):
+      for real in (0, 1):
+        add("qtanh", "qtanh", dict(bits=b, symmetric=sym, real=real))
+        add("qsigmoid", "qsigmoid", dict(bits=b, symmetric=sym, real=real))
+  # the primer: the first flagged `_round_through` call of the process is a training-phase one, whatever the
+  # sample (a 1-bit sign configuration would never reach `_round_through`)
+  out = [("qbits", dict(bits=4, integer=0, symmetric=1, keep_negative=1, alpha=None, stoch=1, phase=0,
+                        proute="train-then-infer", flag_form="bool", u=0.9, u2=0.25))]
+  n_tf = 0
+  cells = sorted(pool)
+  fill = [(cells[int(rng.integers(0, len(cells)))], PHASE_ROUTES[int(rng.integers(0, len(PHASE_ROUTES)))])
+          for _ in range(24 if quick else 300)]
+  for cell, route in [(c, r) for c in cells for r in PHASE_ROUTES] + fill:
+    if route == "tf-function":
+      n_tf += 1
+      if n_tf > (8 if quick else 24):
+        route = "set0"
+    kind, cfg = pool[cell][int(rng.integers(0, len(pool[cell])))]
+    cfg = dict(cfg)
+    cfg["stoch"] = 0 if route == "noflag-train" else 1
+    cfg["phase"] = 1 if route == "noflag-train" else 0
+    cfg["proute"] = route
+    cfg["flag_form"] = FLAG_FORMS[int(rng.integers(0, len(FLAG_FORMS)))]
+    # the draws the model is given: irrelevant in a deterministic round mode (Props.C02.C02_*_inference)
+    cfg["u"], cfg["u2"] = float(rng.integers(0, 1024)) / 1024.0, float(rng.integers(0, 1024)) / 1024.0
+    out.append((kind, cfg))
+  return out
+
+
 # --------------------------------------------------------------------------- the real quantizers
 
 def _alpha_arg(cfg):
@@ -321,8 +396,29 @@ def _alpha_arg(cfg):
   raise ValueError(layout)
 
 
+def _flag_value(cfg):
+  v = bool(cfg.get("stoch"))
+  return {"bool": bool, "int": int, "npbool": np.bool_, "i32": np.int32}[cfg.get("flag_form", "bool")](v)
+
+
+def _with_flag(cls, cfg):
+  """the constructor, with `use_stochastic_rounding` where the configuration asks for it (route "assign":
+  constructed WITHOUT the flag, assigned afterwards in `build`)"""
+  if "stoch" not in cfg or (cfg.get("proute") == "assign" and cls.__name__ != "quantized_linear"):
+    return cls
+  return lambda *a, **k: cls(*a, use_stochastic_rounding=_flag_value(cfg), **k)
+
+
 def _build_direct(kind, cfg):
-  from qkeras import quantizers as Q
+  from qkeras import quantizers as Q0
+
+  class _Q:   # the constructors, flagged where asked for
+    quantized_bits = staticmethod(_with_flag(Q0.quantized_bits, cfg))
+    quantized_linear = staticmethod(_with_flag(Q0.quantized_linear, cfg))
+    quantized_relu = staticmethod(_with_flag(Q0.quantized_relu, cfg))
+    quantized_tanh = staticmethod(_with_flag(Q0.quantized_tanh, cfg))
+    quantized_sigmoid = staticmethod(_with_flag(Q0.quantized_sigmoid, cfg))
+  Q = _Q
   if kind == "qbits":
     return Q.quantized_bits(cfg["bits"], cfg["integer"], cfg["symmetric"], keep_negative=cfg["keep_negative"],
                             alpha=cfg["alpha"])
@@ -391,9 +487,16 @@ def build(kind, cfg):
   """construct the real quantizer; for the mode family under the mode `ctor_mode` (restored after)"""
   from qkeras import quantizers as Q
   cm = cfg.get("ctor_mode")
+  proute = cfg.get("proute")
   try:
     if cm is not None:
       Q.set_internal_sigmoid(cm)
+    if proute == "ctor-train":
+      _set_phase(1)
+    if proute == "assign" and kind != "qlinear":      # quantized_linear: a read-only property
+      q = _build_direct(kind, cfg)
+      q.use_stochastic_rounding = _flag_value(cfg)
+      return q
     if cfg.get("route") == "reassign":
       return _build_reassign(kind, cfg)
     if cfg.get("route") == "reassign-alpha":
@@ -405,6 +508,67 @@ def build(kind, cfg):
   finally:
     if cm is not None:
       Q.set_internal_sigmoid("hard")
+    if proute == "ctor-train":
+      _set_phase(0)
+
+
+def _backend():
+  import tensorflow.keras.backend as K      # the module qkeras.quantizers reads the phase from
+  return K
+
+
+def have_phase():
+  return hasattr(_backend(), "set_learning_phase") and hasattr(_backend(), "learning_phase")
+
+
+def _set_phase(v):
+  _backend().set_learning_phase(v)
+
+
+def _phase_call(q, cfg, t, state):
+  """the judged call of the stoch-phase family: reach the phase the configuration names by its route,
+  call, and put the process back into the default (inference) phase"""
+  import tensorflow as tf
+  K = _backend()
+  route = cfg["proute"]
+  try:
+    if route in ("asis", "ctor-train", "assign"):
+      ph = K.learning_phase()
+      if not (isinstance(ph, (int, bool, np.integer)) and int(ph) == 0):
+        raise AssertionError("the harness left the learning phase at %r" % (ph,))
+      return q(t)
+    if route == "set0":
+      _set_phase(0)
+      return q(t)
+    if route == "scope0":
+      with K.learning_phase_scope(0):
+        return q(t)
+    if route == "train-then-infer":
+      _set_phase(1)
+      state["train_out"] = np.asarray(q(t), dtype=np.float32)
+      _set_phase(0)
+      return q(t)
+    if route == "scope1-exit":
+      with K.learning_phase_scope(1):
+        state["train_out"] = np.asarray(q(t), dtype=np.float32)
+      return q(t)
+    if route in ("layer", "layer-training-false"):
+      if "layer" not in state:
+        import qkeras
+        state["layer"] = qkeras.QActivation(q)
+        if state["layer"].quantizer is not q:
+          raise AssertionError("QActivation holds another object")
+      return state["layer"](t) if route == "layer" else state["layer"](t, training=False)
+    if route == "tf-function":
+      if "fn" not in state:
+        state["fn"] = tf.function(lambda v: q(v), input_signature=[tf.TensorSpec([None], tf.float32)])
+      return state["fn"](t)
+    if route == "noflag-train":
+      _set_phase(1)
+      return q(t)
+    raise ValueError(route)
+  finally:
+    _set_phase(0)
 
 
 def caller(q, cfg):
@@ -412,15 +576,20 @@ def caller(q, cfg):
   import tensorflow as tf
   from qkeras import quantizers as Q
   mode = cfg.get("mode")
+  state = {}
 
   def call(arr):
     try:
       if mode is not None:
         Q.set_internal_sigmoid(mode)
-      return np.asarray(q(tf.constant(np.asarray(arr, dtype=np.float32))), dtype=np.float32)
+      t = tf.constant(np.asarray(arr, dtype=np.float32))
+      if "proute" in cfg:
+        return np.asarray(_phase_call(q, cfg, t, state), dtype=np.float32)
+      return np.asarray(q(t), dtype=np.float32)
     finally:
       if mode is not None:
         Q.set_internal_sigmoid("hard")     # the default: later cases must not see this one's mode
+  call.state = state
   return call
 
 
@@ -537,9 +706,9 @@ def _label(kind, cfg):
 def _wire_cfg(cfg):
   out = {}
   for k, v in cfg.items():
-    if k in ("alpha", "upper", "ctor_alpha"):
+    if k in ("alpha", "upper", "ctor_alpha", "u", "u2"):
       out[k] = None if v is None else core.rj(v)
-    elif k in ("alphas", "layout", "bound", "route", "ctor_mode", "mode", "real"):
+    elif k in ("alphas", "layout", "bound", "route", "ctor_mode", "mode", "real", "proute", "flag_form"):
       continue
     else:
       out[k] = v
@@ -630,6 +799,25 @@ def _collect_scalar(run, rng, kind, cfg, family, jobs, recs):
   xs_eff = flush(xs)
   r.xs, r.ys = fr(xs_eff), fr(ys)
   r.x32 = xs
+  if "proute" in cfg:
+    # the same call once more (the route is replayed): the inference phase is deterministic
+    train_out = r.call.state.pop("train_out", None)
+    r.ys_again = fr(r.call(xs))
+    run.evaluations += len(xs)
+    if train_out is not None and lat is not None and cfg.get("alpha") in (None, 1.0) \
+        and kind in ("qbits", "qlinear", "qrelu", "qtanh", "qsigmoid") and cfg.get("upper") is None:
+      # the training-phase call of the route: random draws, no model value; the C01 clauses hold for
+      # every draw (Props.C01.C01_*_stoch_on_lattice)
+      rt = Rec(kind, label + " [training-phase call]", dict(cfg, phase=1))
+      rt.family, rt.train, rt.q = "stoch-train", True, q
+      rt.xs, rt.ys, rt.x32 = r.xs, fr(train_out), xs
+      rt.model = rt.ys
+      try:
+        rt.impl_min, rt.impl_max = F(float(q.min())), F(float(q.max()))
+      except Exception:  # pylint: disable=broad-except
+        pass
+      run.evaluations += len(xs)
+      recs.append(rt)
   xt = tf.constant(xs)
   if kind == "qtanh":
     p = np.asarray(tf.tanh(xt) if cfg["real"] else 2.0 * surrogate32(mode, xt) - 1.0, dtype=np.float32)
@@ -805,6 +993,19 @@ def collect(run: core.Run, tier: str, prop: str):
                 "modes" if "mode" in cfg else "relu-opts")
       _collect_scalar(run, rng2, kind, cfg, family, jobs, recs)
   Q.set_internal_sigmoid("hard")
+  # use_stochastic_rounding x the learning phase (a stream of its own; not under Keras 3, whose backend has
+  # no learning phase: the flagged quantizers cannot be called there at all)
+  if have_phase():
+    import tensorflow as tf
+    tf.random.set_seed(int(run.seed) + 7)
+    _set_phase(0)
+    rng3 = np.random.default_rng([run.seed, 20261002])
+    for kind, cfg in configs_stoch(tier, rng3):
+      _collect_scalar(run, rng3, kind, cfg, "stoch-phase", jobs, recs)
+    _set_phase(0)
+  else:
+    run.count("stoch_phase_skipped_no_learning_phase")
+  Q.set_internal_sigmoid("hard")
   # histories on one object (a stream of its own as well)
   from . import fixedq_hist
   fixedq_hist.collect(run, tier, jobs, recs)
@@ -821,6 +1022,10 @@ def compare(run: core.Run, recs, with_reporters=True):
   """correspondence: implementation vs model, bit for bit"""
   for r in recs:
     run.count("kind_" + r.kind)
+    if r.train:
+      r.mirrored = False      # random draws: there is no model value to agree with
+      run.count("train_phase_records")
+      continue
     band = set()
     if r.kind == "qlinear" and r.cfg["bits"] == 1 and r.cfg["keep_negative"]:
       # float32: (x/qs - 1/2) rounds to exactly -1/2 for -2^-25 < x/qs < 0 and tf.round(-0.5) = -0:
